@@ -79,18 +79,21 @@ class HostPool(object):
 
         yield from self._condition.acquire()
 
-        while True:
-            if self.ready:
-                connection = self.ready.pop()
-                break
-            elif len(self.busy) < self.max_connections:
-                connection = self._connection_factory()
-                break
-            else:
-                yield from self._condition.wait()
+        try:
+            while True:
+                if self.ready:
+                    connection = self.ready.pop()
+                    break
+                elif len(self.busy) < self.max_connections:
+                    connection = self._connection_factory()
+                    break
+                else:
+                    yield from self._condition.wait()
 
-        self.busy.add(connection)
-        self._condition.release()
+            self.busy.add(connection)
+        finally:
+            # A cancelled wait() comes back holding the lock.
+            self._condition.release()
 
         return connection
 
